@@ -352,6 +352,7 @@ func (in *Interp) beginPath(trace []int) {
 	in.astBack = nil
 	in.astFwd = nil
 	in.l1 = nil
+	in.syncMaps = nil
 	in.posOverride = nil
 	in.reached = nil
 	in.byteAssumed = map[int]bool{}
